@@ -77,7 +77,7 @@ def run(tier, seed, selftest=False, replay=None):
 
     def ex(i):
         p = write_json(os.path.join(d, "h%d.json" % i), parts[i])
-        return json.loads(run_driver("ctx_exec.py", [p, os.path.join(d, "trace%d" % i), 4000]))
+        return json.loads(run_driver("ctx_exec.py", [p, os.path.join(d, "trace%d" % i), 400]))
     files = [f for fl in parallel(ex, range(len(parts))) for f in fl]
     T("executed, %d trace files" % len(files))
     if selftest:
